@@ -24,6 +24,7 @@ def chain(seed, k, tier):
     prior = k % 2 == 0 or tier != "quick"         # special addresses hold funds before their adjustment
     s = scen.Scn("c15-%d" % k, sched=sched, seed=seed * 10 + k, assets=["PEG", "pUSD", "pXBT", "pEUR", "pDCR", "pNGN"])      # PEG / pNGN: first and last ticker
     users = [s.key("A1"), s.key("A2"), s.key("A3")]
+    s.key("MINT")        # this network's mint address is a key pair of the scenario (gen.ApplySchedule)
     h = scen.live_preamble(s, users, fund_peg=1000 * 10**8)
     s.entry(h, "A1", [{"t": "PEG", "amt": 300 * 10**8, "conv": "pUSD"}, {"t": "PEG", "amt": 100 * 10**8, "conv": "pXBT"},
                       {"t": "PEG", "amt": 50 * 10**8, "conv": "pNGN"}])
@@ -52,6 +53,21 @@ def chain(seed, k, tier):
     mid = [hh for hh in sorted(s.blocks) if hh > h]
     for hh in rnd.sample(mid, min(3, len(mid))):
         s.transfer(hh, "A1", "PEG", [(rnd.choice(["BURN", "MINT", "OLDBURN", "DEV1"]), 10**6)], track=False)
+    # the holder of the mint address spends from the 2.0.4 supply before the burn: all of one minted asset (so that the address holds
+    # exactly 0 of an early entry of the supply table and something of later ones), all of another, or all but one unit
+    if sc["V204Burn"] - sc["V204"] >= 2:
+        hh = sc["V204"] + 1
+        usd, xbt = 3184409 * 10**8, 2 * 10**8
+        var = k % 3
+        if var == 0:
+            s.transfer(hh, "MINT", "pUSD", [("A2", usd)], track=False)
+        elif var == 1:
+            s.transfer(hh, "MINT", "pXBT", [("A2", xbt // 2), ("A3", xbt // 2)], track=False)
+            s.transfer(hh, "MINT", "pUSD", [("A3", usd - 1)], track=False)
+        else:
+            s.transfer(hh, "MINT", "pUSD", [("A2", usd)], track=False)
+            s.transfer(hh, "MINT", "pXBT", [("A2", xbt)], track=False)
+            s.transfer(hh, "MINT", "pDCR", [("A2", 5)], track=False)
     s.tip(tip)
     return s
 
@@ -65,7 +81,7 @@ def main():
     return lcheck.run_check(PID, family, {"C15"},
         rule="configuration sweep over six placements of the developer-reward / 2.0.2 / mint / mint-burn activations relative to the 144-block cadence "
              "(on it, just before, just after, coinciding with each other), with and without prior balances on the old burn, burn, mint and developer "
-             "addresses and with funds sent to them between the adjustments; TLC checks per block: developer payout iff h >= activation and h % 144 = 0 with "
+             "addresses with funds sent to them between the adjustments, and with the mint address (a key pair of the scenario) spending all / part of single minted assets before the burn; TLC checks per block: developer payout iff h >= activation and h % 144 = 0 with "
              "the table shares (x144 from 2.0.2), each one-time adjustment exactly at its height for exactly the specified amounts and at no other height "
              "(any other delta on the special addresses is an issue); non-trivial = every chain",
         corrupt=lcheck.corrupt_balance)
